@@ -261,10 +261,28 @@ def rule_r5(p, res):
                 r.violation(k.methods[m], k.methods[m].node, "%s overrides %s" % (k.name, m))
 
 
+def rule_r6(p, res):
+    r = res.rule("C07.R6", "containment: one containing triangle per point, assigned by point number")
+    f = p.func("menpo.transform.piecewiseaffine.base.containment_from_alpha_beta")
+    r.instance(f)
+    d = Defs(f.node)
+    nz = [(nm, v[1]) for nm, ds in d.defs.items() for kd, v, st in ds if kd == "unpack" and isinstance(v[0], ast.Call) and (dotted(v[0].func) or "").endswith("nonzero")]
+    need(len(nz) == 2, "C07.R6: the (point, triangle) hit lists of containment_from_alpha_beta (np.nonzero unpacked in two) were not found")
+    pt = [nm for nm, i in nz if i == 0][0]
+    tr = [nm for nm, i in nz if i == 1][0]
+    scat = [n for n in walk_own(f.node) if isinstance(n, ast.Assign) and isinstance(n.targets[0], ast.Subscript) and norm(n.targets[0].slice) == pt and norm(n.value) == tr]
+    rets = returns_of(f.node)
+    ok = len(scat) == 1 and len(rets) == 1 and norm(scat[0].targets[0].value) in {x.id for x in ast.walk(rets[0].value) if isinstance(x, ast.Name)}
+    alloc = d.single(norm(scat[0].targets[0].value)) if scat else None
+    ok = ok and isinstance(alloc, ast.Call) and (dotted(alloc.func) or "") in ("np.zeros", "np.empty") and norm(alloc.args[0]) in ("%s.shape[0]" % f.params[0], "%s.shape[0]" % f.params[1], "len(%s)" % f.params[0])
+    r.check(ok, f, scat[0] if scat else f.node, "the triangle of each point must be written at the point's own number (`index[%s] = %s` into an array with one entry per point): "
+            "anything that uses the hit list positionally gives later points the triangle of another point as soon as one point lies in two triangles" % (pt, tr))
+
+
 # rules of sibling properties over code paths this property's statement also quantifies over (DESIGN.md section 3, shared rules)
 ALSO = ['C04.R2', 'C06.R2', 'C08.R2', 'C09.R3']
 
-RULES = [rule_r1, rule_r2, rule_r3, rule_r4, rule_r5]
+RULES = [rule_r1, rule_r2, rule_r3, rule_r4, rule_r5, rule_r6]
 
 WITNESSES = [
     Witness("C07.W1", "menpo/transform/base/alignment.py", "Alignment.alignment_error", "self.aligned_source().points", "self.source.points", rule="C07.R1", construct="alignment_error"),
@@ -289,4 +307,9 @@ WITNESSES = [
 
 WITNESSES += [
     Witness("C07.W12", "menpo/transform/piecewiseaffine/base.py", "AbstractPWA.__init__", "if not isinstance(source, TriMesh):", "if type(source) is not TriMesh:", rule="C07.R4", construct="AbstractPWA.__init__", note="seeded change R4-C07-A"),
+]
+
+WITNESSES += [
+    Witness("C07.W13", "menpo/transform/piecewiseaffine/base.py", "containment_from_alpha_beta", "index = np.zeros(alpha.shape[0])\n    index[point_index] = tri_index\n    return index.astype(np.uint32)",
+            "first = np.unique(point_index)\n    return tri_index[first].astype(np.uint32)", rule="C07.R6", construct="containment_from_alpha_beta", note="seeded change R5-C02-A"),
 ]
